@@ -52,6 +52,7 @@ import (
 
 	client "github.com/liftbridge-io/liftbridge-api/v2/go"
 	"google.golang.org/grpc/codes"
+	"google.golang.org/grpc/status"
 
 	kit "github.com/liftbridge-io/liftbridge/internal/verifkit"
 )
@@ -227,9 +228,8 @@ func (s *c13Sub) confirmedActive() (act, ok bool) {
 func (s *c13Sub) drain() {
 	defer close(s.done)
 	var msgs <-chan *client.Message
-	var errs = s.sub.Errors()
+	var errs <-chan *status.Status
 	gate := (<-chan struct{})(s.gate)
-	errs = nil
 	for {
 		select {
 		case <-gate:
